@@ -39,6 +39,9 @@ CASES = {
     "GetFreeSendBufferBits": ("(probe_conn.SendBufferBitsNum=%d, GetFreeSendBufferBits(&probe_conn))", [[s for s in SIZES if s <= 8200]]),
     "utcp_send_would_block": ("(probe_conn.OutPacketId=%d, probe_conn.OutAckPacketId=%d, utcp_send_would_block(&probe_conn,%d))", None),
     "utcp_gettime_ms": ("(utcp_get_config()->ElapsedTime=%dLL, utcp_gettime_ms())", [[0, 1, 999, 1000, 1001, 1999999, 120000000, 7200000000, 36000000000]]),
+    "PackedHeader_Pack": ("PackedHeader_Pack((uint16_t)%d,(uint16_t)%d,(size_t)%d)", [S14 + [16384, 65535], S14 + [16384, 65535], [0, 1, 2, 7, 8, 15, 16, 17, 255]]),
+    "ClAMP": ("ClAMP((size_t)%d,(size_t)%d,(size_t)%d)", [[0, 1, 2, 7, 8, 9, 100], [0, 1, 2], [1, 8, 9]]),
+    "MIN": ("MIN((size_t)%d,(size_t)%d)", [[0, 1, 7, 8, 9, 255, 65536], [0, 1, 8, 9, 256]]),
 }
 CXX_CASES = {
     "bits2bytes": ("utcp::bits2bytes(%dULL)", [SIZES]),
@@ -112,10 +115,10 @@ def run(stamp):
     src = os.path.join(BUILD, "transval_%d.c" % os.getpid())
     exe = os.path.join(BUILD, "transval_%d.exe" % os.getpid())
     with open(src, "w") as f:
-        f.write('#include <stdio.h>\n#include "%s"\nstatic struct utcp_connection probe_conn;\nstatic struct packet_notify probe_pn;\nstatic struct notification_header probe_nh;\nint main(void){\n' % os.path.join(REPO, "utcp/utcp_packet.c"))
+        f.write('#include <stdio.h>\n#include "%s"\n#include "%s"\nstatic struct utcp_connection probe_conn;\nstatic struct packet_notify probe_pn;\nstatic struct notification_header probe_nh;\nint main(void){\n' % (os.path.join(REPO, "utcp/utcp_packet.c"), os.path.join(REPO, "utcp/utcp_packet_notify.c")))
         f.write("\n".join(c_lines))
         f.write("\n  return 0;\n}\n")
-    others = [s for s in sorted(glob.glob(os.path.join(REPO, "utcp/*.c")) + glob.glob(os.path.join(REPO, "utcp/3rd/*.c"))) if not s.endswith("/utcp_packet.c")]
+    others = [s for s in sorted(glob.glob(os.path.join(REPO, "utcp/*.c")) + glob.glob(os.path.join(REPO, "utcp/3rd/*.c"))) if not s.endswith(("/utcp_packet.c", "/utcp_packet_notify.c"))]
     p = subprocess.run(["gcc", "-std=gnu11", "-O0", "-w", "-DNDEBUG", "-I" + REPO, "-I" + os.path.join(REPO, "utcp"), src] + others + ["-o", exe], stdout=subprocess.PIPE, stderr=subprocess.STDOUT, text=True)
     if p.returncode != 0:
         print("C probe does not compile:\n" + p.stdout[-1500:])
